@@ -8,7 +8,7 @@ V = "/verif"
 def parse(p):
     s = open(p).read()
     imps = re.findall(r"^import (Driver\.Plug\.\w+)$", s, re.M)
-    ents = re.findall(r'\("(\w+)",\s*(Driver\.\w+\.plug)\)', s)
+    ents = re.findall(r'\("(\w+)",\s*(Driver\.\w+\.plug\w*)\)', s)
     return imps, ents
 vi, ve = parse(V + "/lean/Driver/Plugins.lean")
 ai, ae = parse(A + "/lean/Driver/Plugins.lean")
